@@ -60,7 +60,7 @@ def run(ctx):
     needs = {CL.ONE: 1, CL.TWO: 2, CL.THREE: 3}
     serial = (CL.SERIAL, CL.LOCAL_SERIAL)
     cls = list(range(0, 11))
-    counts = list(range(0, 6)) if ctx.tier == 'thorough' else [0, 1, 2, 3, 4]
+    counts = list(range(0, 6)) if ctx.tier == 'thorough' else [0, 1, 2, 3]
     retries = [0, 1, 2]
     wts = list(range(0, 8))
     grid = []
@@ -70,12 +70,8 @@ def run(ctx):
         grid.append(('write', c, w, rq, rc, None, n))
     for c, rq, rc, n in itertools.product(cls, counts, counts, retries):
         grid.append(('unav', c, None, rq, rc, None, n))
-    if ctx.tier == 'quick':
-        ctx.rng.shuffle(grid)
-        grid = grid[:1200]
-        ctx.exhaustive = False
-    else:
-        ctx.exhaustive = True
+    # the grid is exhaustive in every tier (a single (level, count) point can carry a wrong decision); quick only has fewer counts
+    ctx.exhaustive = True
     # boundary stream: large / negative counts (the theorems quantify over all integers)
     for big in (10**6, 2**63, -1, -7):
         grid.append(('read', CL.QUORUM, None, big, big - 1, False, 0))
